@@ -295,6 +295,22 @@ def run(res, replay=None):
                 res.violation("corr:extraction", f"Coq vm_compute insphere_model={v} differs from spec on {pts}", {"points": pts}, no_input=True)
         res.notes["coq_vm_compute_crosscheck_cases"] = len(sub)
 
+    # ---------------- the model regenerated from the source: src/geometry.rs -> Gallina (tools/translate_insphere.py), proved equal to
+    # insphere_model by Coq on every run, so that the theorems of Properties/C10.v speak about what the source says now
+    import translate_insphere as TI
+    try:
+        gen, info = TI.gallina(os.path.join(C.REPO, "src", "geometry.rs"))
+        rc_g, out_g = C.coq_eval(gen, "C10_gen")
+        gen_ok = rc_g == 0 and "Closed under the global context" in out_g
+        detail = out_g[-300:].replace("\n", " ")
+        res.notes["source_translation"] = {"lets": info["lets"], "macros": info["macros"], "sign_glue": [f"{c}: {k}" for c, k in info["glue"]], "proved_equal_to_model": gen_ok}
+    except TI.TranslationError as e:
+        gen_ok, detail = False, "translator: " + str(e)
+        res.notes["source_translation"] = {"error": str(e)}
+    if not gen_ok:
+        found = any(not v["no_input"] for v in res.violations)
+        res.violation("proof:C10-source-translation", "the Gallina translation of in_sphere_test_exact (src/geometry.rs) is no longer proved equal to insphere_model "
+                      "(theorem insphere_src_is_model of the generated C10_gen.v): " + detail, {"obligation": "C10_gen.v insphere_src_is_model", "detail": detail}, no_input=True)
     # ---------------- grid map
     boxes = gen_boxes(rng, tier)
     if replay:
